@@ -392,6 +392,9 @@ func runMerge(c *ctx, which string) {
 		byteLimitMerges(c)
 		keySetReconfigMerges(c)
 	}
+	if which == "C11" {
+		overlappingGroupMerges(c)
+	}
 }
 
 func rowOfLayout(l []FileObs, id int) []byte {
@@ -622,6 +625,79 @@ func keySetReconfigMerges(c *ctx) {
 		}
 		if fmt.Sprint(before) != fmt.Sprint(after) {
 			c.r.Add(Finding{Kind: "violation", Check: "answer-changed", Detail: fmt.Sprintf("strict prefilter ts >= 0 returned ids %v before the merge and %v after", before, after), Replay: replay})
+		}
+		env.Stop()
+	}
+}
+
+// overlappingGroupMerges (C11): a file with blocks in two partitions next to files that each share only one
+// of them - however the files are grouped, every row is stored exactly once after the merge and every query
+// keeps its answer.
+func overlappingGroupMerges(c *ctx) {
+	r := NewRng(c.seed, 114)
+	for i := 0; i < 6*c.scale; i++ {
+		cfg := bs.DefaultBloomSearchEngineConfig()
+		cfg.PartitionFunc = partitionFunc("p")
+		cfg.MaxBufferedTime = time.Hour
+		cfg.MaxFilesToMergePerOperation = 8
+		cfg.RowDataCompression = pick(r, []bs.CompressionType{bs.CompressionNone, bs.CompressionSnappy})
+		env := NewEnv(cfg)
+		h := &History{Env: env, Rows: map[int]*StoredRow{}}
+		id := 0
+		mk := func(parts ...string) {
+			var rows []map[string]any
+			for _, p := range parts {
+				id++
+				rows = append(rows, map[string]any{"_id": id, "p": p, "w": "needle"})
+			}
+			env.IngestWait(rows)
+		}
+		switch i % 3 {
+		case 0:
+			mk("P")
+			mk("Q")
+			mk("P", "Q", "P", "Q", "P", "Q")
+		case 1:
+			mk("P", "P")
+			mk("Q")
+			mk("R")
+			mk("P", "Q", "R", "P", "Q", "R")
+		default:
+			mk("P", "Q", "P", "Q", "P", "Q")
+			mk("Q")
+			mk("P")
+			mk("P", "Q")
+		}
+		total := id
+		_, merr := env.Eng.Merge(context.Background())
+		layout, lerr := h.Layout()
+		out := env.Query(&bs.Query{})
+		replay := map[string]any{"shape": i % 3, "rows": total, "merge_err": fmt.Sprint(merr)}
+		c.r.Case(true, fmt.Sprint("overlapping-groups", i))
+		c.r.Hit("merge.overlapping-groups")
+		if merr != nil || lerr != nil {
+			c.r.Add(Finding{Kind: "disagreement", Check: "merge", Detail: fmt.Sprintf("healthy merge failed: %v / %v", merr, lerr), Replay: replay})
+			env.Stop()
+			continue
+		}
+		stored := map[int]int{}
+		for _, f := range layout {
+			for _, b := range f.Blocks {
+				for _, x := range b.RowIDs {
+					stored[x]++
+				}
+			}
+		}
+		got := idsOf(out.Rows)
+		for x := 1; x <= total; x++ {
+			if stored[x] != 1 {
+				c.r.Add(Finding{Kind: "violation", Check: "rows-preserved", Detail: fmt.Sprintf("row %d is stored %d times after the merge (once before)", x, stored[x]), Replay: replay})
+				break
+			}
+			if got[x] != 1 {
+				c.r.Add(Finding{Kind: "violation", Check: "answer-changed", Detail: fmt.Sprintf("row %d is returned %d times after the merge (once before)", x, got[x]), Replay: replay})
+				break
+			}
 		}
 		env.Stop()
 	}
